@@ -267,32 +267,17 @@ end
 
 /-! ### the code's validity verdict and the documented one -/
 
-/-- No certificate the server relies on is acceptable *only* because "server authentication"
-is among the accepted extended key usages (vacuous when the source accepts client usage only).
-This is exactly the predicate that excludes finding F52. -/
-def EkuStrict (u : Usages) (certs : List Cert) : Prop :=
-  match u with
-  | .clientOnly => True
-  | .clientOrServer => ∀ c ∈ certs, c.okClientOrServer = c.okClient
+/-- with the documented usage list {clientAuth, serverAuth} the verdict the source selects is the
+documented validity -/
+theorem codeValid_doc (p : Policy) : codeValid .clientOrServer p = validUnder p := by
+  funext c
+  unfold codeValid validUnder
+  rfl
 
-theorem codeValid_eq (u : Usages) (p : Policy) (certs : List Cert) (h : EkuStrict u certs) :
-    certs.all (codeValid u p) = certs.all (validUnder p) := by
-  cases u with
-  | clientOnly => rfl
-  | clientOrServer =>
-    induction certs with
-    | nil => rfl
-    | cons c cs ih =>
-      have hc : c.okClientOrServer = c.okClient := h c (List.mem_cons_self)
-      have hcs : EkuStrict .clientOrServer cs := fun x hx => h x (List.mem_cons_of_mem _ hx)
-      simp only [List.all_cons, ih hcs]
-      unfold codeValid validUnder
-      simp [hc]
-
-theorem psat_code_eq (u : Usages) (p : Policy) (b : Behaviour) (h : EkuStrict u b.relied) :
-    PSatV (codeValid u p) p b = PolicySatisfied p b := by
+theorem psat_code_eq (p : Policy) (b : Behaviour) :
+    PSatV (codeValid .clientOrServer p) p b = PolicySatisfied p b := by
   unfold PSatV PolicySatisfied
-  rw [codeValid_eq u p b.relied h]
+  rw [codeValid_doc]
 
 /-! ### C07 property theorems -/
 
@@ -302,8 +287,8 @@ def IsStack (t : Tables) : Prop := tlcpTables = some t ∨ dtlcpTables = some t
 /-- **The facts the theorems rely on**: both stacks' regenerated tables are the documented ones
 — iota order, `requiresClientCert` truth table, ECDHE promotion, the comparisons guarding
 CertificateRequest / mandatory Certificate / chain verification, `len(peerCertificates) > 0`
-for CertificateVerify, the ECDHE minimum of two certificates, resumption honouring the policy
-(F6 repaired) — the remaining shape facts hold, and nothing the extractor looked for is missing. -/
+for CertificateVerify, the ECDHE minimum of two certificates, the accepted extended key usages
+{clientAuth, serverAuth}, resumption honouring the policy (F6 repaired) — the remaining shape facts hold, and nothing the extractor looked for is missing. -/
 theorem C07_facts :
     tlcpTables = some (docTables true true true .clientOrServer) ∧
     dtlcpTables = some (docTables true true true .clientOrServer) ∧
@@ -326,32 +311,31 @@ theorem C07_full_code (t : Tables) (ht : IsStack t) (p : Policy) (b : Behaviour)
   exact full_code _ _ _ _ p b
 
 /-- **Completion ⇔ `PolicySatisfied`** (the statement of C07 for full handshakes), for all six
-policies and every behaviour, on both stacks.  The hypothesis excludes exactly finding F52 (a
-certificate acceptable only as a *server* certificate); it is vacuous once the source accepts
-client usage only. -/
-theorem C07_full (t : Tables) (ht : IsStack t) (p : Policy) (b : Behaviour)
-    (hEKU : EkuStrict t.usages b.relied) :
+policies and every behaviour, on both stacks: the server completes exactly when the client's
+flight is well-formed and the policy is satisfied. -/
+theorem C07_full (t : Tables) (ht : IsStack t) (p : Policy) (b : Behaviour) :
     serverCompletes t p b = ShouldComplete p b := by
-  rw [C07_full_code t ht, psat_code_eq _ _ _ hEKU]
+  rw [C07_full_code t ht, stack_tables ht]
+  show (FlowOK p b && PSatV (codeValid .clientOrServer p) p b) = _
+  rw [psat_code_eq]
   rfl
 
 /-- the six policies one by one, in the documented wording (corollaries of `C07_full`) -/
-theorem C07_full_by_policy (t : Tables) (ht : IsStack t) (b : Behaviour)
-    (hEKU : EkuStrict t.usages b.relied) :
+theorem C07_full_by_policy (t : Tables) (ht : IsStack t) (b : Behaviour) :
     (serverCompletes t .noClientCert b = (FlowOK .noClientCert b && (!b.present || b.pop))) ∧
     (serverCompletes t .requestClientCert b = (FlowOK .requestClientCert b && (!b.present || b.pop))) ∧
     (serverCompletes t .requireAnyClientCert b = (FlowOK .requireAnyClientCert b && (b.present && b.pop))) ∧
     (serverCompletes t .verifyClientCertIfGiven b =
-      (FlowOK .verifyClientCertIfGiven b && (b.relied.all (·.okClient) && (!b.present || b.pop)))) ∧
+      (FlowOK .verifyClientCertIfGiven b && (b.relied.all (·.okClientOrServer) && (!b.present || b.pop)))) ∧
     (serverCompletes t .requireAndVerifyClientCert b =
-      (FlowOK .requireAndVerifyClientCert b && (b.present && b.relied.all (·.okClient) && b.pop))) ∧
+      (FlowOK .requireAndVerifyClientCert b && (b.present && b.relied.all (·.okClientOrServer) && b.pop))) ∧
     (serverCompletes t .requireAndVerifyAnyKeyUsageClientCert b =
       (FlowOK .requireAndVerifyAnyKeyUsageClientCert b && (b.present && b.relied.all (·.okAnyUsage) && b.pop))) := by
-  have e1 : ∀ p : Policy, p.ignoresUsage = false → validUnder p = fun c => c.okClient := by
+  have e1 : ∀ p : Policy, p.ignoresUsage = false → validUnder p = fun c => c.okClientOrServer := by
     intro p h; funext c; simp [validUnder, h]
   have e2 : validUnder .requireAndVerifyAnyKeyUsageClientCert = fun c => c.okAnyUsage := by
     funext c; simp [validUnder, Policy.ignoresUsage]
-  refine ⟨?_, ?_, ?_, ?_, ?_, ?_⟩ <;> rw [C07_full t ht _ b hEKU] <;>
+  refine ⟨?_, ?_, ?_, ?_, ?_, ?_⟩ <;> rw [C07_full t ht _ b] <;>
     simp only [ShouldComplete, PolicySatisfied, Policy.requiresCert, Policy.verifies, e2,
       e1 .verifyClientCertIfGiven rfl, e1 .requireAndVerifyClientCert rfl] <;>
     cases b.present <;> cases b.pop <;> simp
@@ -396,10 +380,9 @@ theorem C07_session_pop (t : Tables) (ht : IsStack t) (p : Policy) (b : Behaviou
 the client roots and time now in force, its proof of possession checked when they were recorded
 (`C07_session_pop`) — satisfies `p`. -/
 theorem C07_resumed (t : Tables) (ht : IsStack t) (p : Policy) (r : Resume)
-    (hEKU : EkuStrict t.usages (origOf r).relied)
     (h : resumedCompletes t p r = true) : PolicySatisfied p (origOf r) = true := by
-  rw [← psat_code_eq _ _ _ hEKU]
-  rw [stack_tables ht] at h ⊢
+  rw [← psat_code_eq]
+  rw [stack_tables ht] at h
   exact resume_sound _ p r h
 
 /-- the same over two-connection histories: a full handshake of behaviour `b1` under `p1`
@@ -411,14 +394,11 @@ theorem C07_resumed_history (t : Tables) (ht : IsStack t) (p1 p2 : Policy) (b1 :
     (now : List Cert) (hit mech fin : Bool)
     (hfull : (full t p1 b1).completed = true)
     (hlen : now.length = (full t p1 b1).recorded)
-    (hEKU : EkuStrict t.usages (if b1.ecdhe then now.take 2 else now.take 1))
     (hres : resumedCompletes t p2 ⟨hit, mech, b1.ecdhe, now, fin⟩ = true) :
     PolicySatisfied p2 { b1 with certMsg := !now.isEmpty, certs := now } = true := by
   let r : Resume := ⟨hit, mech, b1.ecdhe, now, fin⟩
   have hsent : (origOf r).sent = now := origOf_sent r
-  have hrel : (origOf r).relied = (if b1.ecdhe then now.take 2 else now.take 1) := by
-    unfold Behaviour.relied; rw [hsent]; rfl
-  have h := C07_resumed t ht p2 r (by rw [hrel]; exact hEKU) hres
+  have h := C07_resumed t ht p2 r hres
   -- the two behaviours differ only in `cv`; compare the three clauses
   have hsent' : ({ b1 with certMsg := !now.isEmpty, certs := now } : Behaviour).sent = now := by
     unfold Behaviour.sent; cases hn : now <;> simp
@@ -472,23 +452,36 @@ example : resume unrepaired .requireAndVerifyClientCert f6Witness2 = .resumedDon
     resume (docTables true true true .clientOrServer) .requireAndVerifyClientCert f6Witness2 = .resumedFailed .chain := by
   decide
 
-/-! ### F52 — a server-authentication-only certificate is accepted as a client certificate -/
+/-! ### extended key usage: the documented set is {clientAuth, serverAuth}
 
-/-- a trusted, in-date client certificate whose extended key usage is serverAuth only, sent
-with a correct proof of possession by an otherwise correct client -/
-def f52Witness : Behaviour :=
+The source verifies client chains with `KeyUsages = [ClientAuth, ServerAuth]` (wider than
+crypto/tls, which accepts clientAuth only — an observation, not a finding: the property asks for
+no particular usage).  `C07_facts` pins the extracted list to that documented set, so a change
+that narrows or widens it breaks the theorems; the examples show what each direction would do. -/
+
+/-- a trusted, in-date certificate whose extended key usage is serverAuth only / codeSigning only,
+sent with a correct proof of possession by an otherwise correct client -/
+def serverAuthOnly : Behaviour :=
   { ecdhe := false, certMsg := true, certs := [⟨false, true, true, true⟩], parseOK := true, kxOK := true,
     cv := some ⟨true, true⟩, finishedOK := true }
+def codeSigningOnly : Behaviour :=
+  { ecdhe := false, certMsg := true, certs := [⟨false, false, true, true⟩], parseOK := true, kxOK := true,
+    cv := some ⟨true, true⟩, finishedOK := true }
 
-/-- F52 (known finding): with the source's usage list `[ClientAuth, ServerAuth]` the server
-completes under `RequireAndVerifyClientCert` although the certificate is not valid for client
-authentication; `C07_full` cannot drop `EkuStrict` … -/
-example : serverCompletes (docTables true true true .clientOrServer) .requireAndVerifyClientCert f52Witness = true ∧
-    ShouldComplete .requireAndVerifyClientCert f52Witness = false := by decide
+/-- serverAuth-only is accepted under the verifying policies; codeSigning-only ("wrong extended
+key usage") is refused under them and accepted under `RequireAndVerifyAnyKeyUsageClientCert` -/
+example :
+    serverCompletes (docTables true true true .clientOrServer) .requireAndVerifyClientCert serverAuthOnly = true ∧
+    ShouldComplete .requireAndVerifyClientCert serverAuthOnly = true ∧
+    serverCompletes (docTables true true true .clientOrServer) .requireAndVerifyClientCert codeSigningOnly = false ∧
+    serverCompletes (docTables true true true .clientOrServer) .verifyClientCertIfGiven codeSigningOnly = false ∧
+    serverCompletes (docTables true true true .clientOrServer) .requireAndVerifyAnyKeyUsageClientCert codeSigningOnly = true ∧
+    serverCompletes (docTables true true true .clientOrServer) .requireAnyClientCert codeSigningOnly = true := by decide
 
-/-- … and with client usage only the same behaviour is refused -/
-example : serverCompletes (docTables true true true .clientOnly) .requireAndVerifyClientCert f52Witness = false := by
-  decide
+/-- a source that narrowed the list to clientAuth would refuse what the documented policy accepts
+(the negation of `C07_full` for such tables, on the witness) -/
+example : serverCompletes (docTables true true true .clientOnly) .requireAndVerifyClientCert serverAuthOnly = false ∧
+    ShouldComplete .requireAndVerifyClientCert serverAuthOnly = true := by decide
 
 /-! ### ECDHE and the promoted policy (explained, not a violation)
 
@@ -553,12 +546,8 @@ example :
     let b : Behaviour := { ecdhe := true, certMsg := true, certs := [⟨true, true, true, true⟩, ⟨true, true, true, true⟩],
                            parseOK := true, kxOK := true, cv := some ⟨true, true⟩, finishedOK := true }
     full (docTables true true true .clientOrServer) .requireAndVerifyClientCert b =
-      { completed := true, stage := .done, certReq := true, peerCerts := 2, chains := true, popChecked := true, recorded := 2 } ∧
-    EkuStrict .clientOrServer b.relied := by
-  refine ⟨by decide, ?_⟩
-  intro c hc
-  simp [Behaviour.relied, Behaviour.sent] at hc
-  rcases hc with rfl | rfl <;> rfl
+      { completed := true, stage := .done, certReq := true, peerCerts := 2, chains := true, popChecked := true, recorded := 2 } := by
+  decide
 
 /-- a certificate sent with the CertificateVerify missing, signed by another key, or signed over
 another transcript is refused under every policy that asks for certificates -/
